@@ -226,3 +226,27 @@ def body(fx, rep, m, g, f, rule, ownv, rel_key, rel_fn, assign):
             rep.check(good, rule, '%s takes over every member and clears the source' % sname, loc, '', '; '.join(why))
     if not seen[True] or not seen[False]:
         rep.unsupported(rule, sname, '%s:%s' % (f['file'], f['line']), 'expected an owning and a non-owning path (found %s)' % seen)
+    if assign and f['params'] and f['params'][0].get('isref'):
+        # self-move-assignment (g = std::move(g), or two names for one guard in a container shuffle): the parameter aliases
+        # *this.  Whatever the function does then, the guard must end up either still owning its grant (nothing released) or
+        # empty (the grant released): owning without a grant would release a second time later
+        prm = f['params'][0]
+        alias = m.eng.paths(f, init_store={('var', prm['did'], prm['name']): S('this')})
+        for p in alias['paths']:
+            loc = '%s:%s' % (f['file'], p.ret_line or f['line'])
+            t = m.truth(ownv, p)
+            if t is None:
+                t = m.truth(S('this->' + own), p)
+            if t is not True:
+                continue
+            if rel_key is None:
+                rels = [e for e in p.events if e['kind'] == 'atomic' and e['op'] != 'load' and m.lock_obj_kind(e['obj'], f) == 'LOCK']
+            else:
+                rels = [e for e in p.events if e['kind'] == 'call' and e.get('callee') == rel_key]
+            final = p.store.get(('field', S('this'), own), ownv)
+            empty = is_const(final) and final[1] == 0
+            keeps = final in (ownv, S('this->' + own))
+            good = (len(rels) == 0 and keeps) or (len(rels) == 1 and empty)
+            rep.check(good, rule, '%s self-move-assignment leaves the guard owning its grant or empty' % sname, loc,
+                      'no release and ownership kept' if not rels else 'released once and left empty',
+                      '%d release(s) but %s = %s afterwards: the guard claims a grant it no longer holds (released again on destruction)' % (len(rels), own, show(final)))
